@@ -168,6 +168,28 @@ def composer_conformance(ck, sc):
     return drift, panics, events
 
 
+def reference(ck, sc, tier, limit=None):
+    """Honest proofs of this check's own programs through C03's specification-driven
+    reference verifier and transcript comparison: a consistent prover+verifier change of
+    an atom or a weight of the widgets these programs use is a disagreement there."""
+    import c03
+    limit = limit or (8 if tier == "quick" else 24)
+    seen = {}
+    for s in sc:
+        if s["expect"]["res"] == "ok" and "prove_ops" not in s and s["g"] not in seen:
+            seen[s["g"]] = s
+    # a second program per component where available (different parameters)
+    more = [s for s in sc if s["expect"]["res"] == "ok" and "prove_ops" not in s and s not in seen.values()]
+    progs = list(seen.values()) + more[:max(0, limit - len(seen))]
+    progs = [{"id": str(s["id"]), "ops": s["ops"]} for s in progs[:limit]]
+    if not progs:
+        return None
+    summary = c03.reference_check(ck, progs, tier=tier, tag="ref-" + ck.pid)
+    ck.extra["reference_verifier"] = {k: summary.get(k) for k in
+                                      ("programs", "triples", "disagreements", "transcript_differences")}
+    return summary
+
+
 def standard(pid, tier, mc, weak, scen, notes=None, site_of=None, extra_scen=None):
     ck = vlib.Check(pid, tier)
     ck.assumptions = [
@@ -195,6 +217,7 @@ def standard(pid, tier, mc, weak, scen, notes=None, site_of=None, extra_scen=Non
     if extra_scen:
         all_sc.extend(extra_scen(ck, tier))
     run_scenarios(ck, all_sc, site_of)
+    reference(ck, all_sc, tier)
     drift, panics, _ = composer_conformance(ck, all_sc)
     for e in panics:
         ck.violation("component %s panicked: %s" % (e.get("op"), e.get("res")),
